@@ -38,4 +38,15 @@ def loadPackageBody : String :=
     "(block (if _ (call (. v0 ignored) (slice v2 2 _ _)) (block (return nil)) _) (if _ (== v1 nil) (block (= (v1) ((u& (lit (. sync WaitGroup))))) (defer (call (. v1 Wait)))) _) (:= (v3) ((call (. filepath Join) (. v0 root) (slice v2 2 _ _)))) (:= (v4 v5) ((call (. os ReadDir) v3))) (if _ (!= v5 nil) (block (return v5)) _) (range _ v6 v4 (block (switch _ _ (case ((call (. v6 IsDir))) (if _ (!= (call (. v6 Name)) \".dawn\") (block (:= (v7 _) ((call (. label Join) v2 (call (. v6 Name))))) (if (:= (v5) ((call (. v0 loadPackage) v1 v7))) (!= v5 nil) (block (return v5)) _)) _)) (case ((== (call (. v6 Name)) \"BUILD.dawn\")) (call (. v1 Add) 1) (go (call (func (block (call verifPoint \"loader.thread.begin\" v2) (call (. v0 loadModule) nil (u& (lit (. label Label) (kv Kind \"module\") (kv Package v2) (kv Name",
     " \"BUILD.dawn\")))) (call verifPoint \"loader.thread.end\" v2) (call (. v1 Done)))))))))) (return nil))"]
 
+def watchBody : String :=
+  String.join [
+    "(block (:= (v2) ((call make (chan (. notify EventInfo)) 1000))) (:= (v3) ((call make (chan (struct))))) (go (call (func (block (:= (v4) ((call make (chan (struct))))) (:= (v5) ((call make (chan (struct))))) (go (call (func (block (range _ _ v4 (block (if (:= (v6) ((call (. v0 Reload)))) (!= v6 nil) (block (continue)) _) (call (. v0 Run) v1 nil))) (call close v5))))) (:= (v7) (false)) (:= (v8) ((call (. time NewTicker) (* 500 (. time Millisecond))))) (for _ _ _ (block (select (comm (:= (v10 v11) ((u<- v2))) (if _ (u! ok) (block (call close v4) (u<- v5) (call close v3) (return)) _) (:= (v9 v6) ((call (. filepath Rel) (. v0 root) (call (. event Path))))) (if _ (!= v6 nil) (block (continue)) _) (if _ (&& (u! (call (. strings HasPrefix) (call (. event Path)) (. v0 work))) (u! (call (. v0 ignore",
+    "d) v9))) (block (= (v7) (true)) (:= (v1 v6) ((call sourceLabel \"//\" v9))) (if _ (!= v6 nil) (block (continue)) _) (call (. (. v0 events) FileChanged) v1)) _)) (comm (u<- (. v8 C)) (if _ v7 (block (select (comm (send v4 (lit (struct))) (= (v7) (false))) (comm _))) _))))))))) (if (:= (v6) ((call (. notify Watch) (call (. filepath Join) (. v0 root) \"...\") v2 (. notify All)))) (!= v6 nil) (block (call close v2) (u<- v3) (return v6)) _) (u<- v3) (return nil))"]
+
+def newThreadBody : String :=
+  "(block (:= (v1) ((u& (lit (. starlark Thread) (kv Name (call (. (. v0 label) String))) (kv Print (func (block (call (. (. (. v0 proj) events) Print) (. v0 label) v2)))) (kv Load (func (block (return nil (call (. errors New) \"targets cannot load modules\"))))))))) (:= (v4) ((slice (call (. label Split) (. (. v0 label) Package)) 1 _ _))) (:= (v5) ((call (. filepath Join) (. (. v0 proj) root) (call (. filepath Join) v4 ...)))) (call (. util Chdir) v1 v5) (call (. util SetStdio) v1 (. v0 out) (. v0 out)) (call (. v1 SetLocal) \"root\" (. (. v0 proj) root)) (call (. v1 SetLocal) \"module\" (. v0 module)) (return v1))"
+
+def getwdBody : String :=
+  "(block (:= (v1 v2) ((assert (call (. v0 Local) \"wd\") string))) (if _ (u! v2) (block (:= (v3 v4) ((call (. os Getwd)))) (if _ (== v4 nil) (block (= (v1) (v3))) _)) _) (return v1))"
+
 end Dawn.Expected.Glob
